@@ -435,6 +435,15 @@ def _range(ex, args, kwargs, fr):
     return VRange(args[0], args[1], args[2])
 
 
+@libfn("builtins.slice")
+def _slice(ex, args, kwargs, fr):
+    if len(args) == 1:
+        return VSlice(NONE, args[0], NONE)
+    if len(args) == 2:
+        return VSlice(args[0], args[1], NONE)
+    return VSlice(args[0], args[1], args[2])
+
+
 @libfn("builtins.enumerate")
 def _enumerate(ex, args, kwargs, fr):
     start = int_of(kwargs.get("start", args[1] if len(args) > 1 else VInt(0)))
@@ -648,7 +657,11 @@ def _int(ex, args, kwargs, fr):
             if ex.st.branch(z3.Or(z3.fpIsNaN(v.v), z3.fpIsInf(v.v))):
                 ex.throw("ValueError", "cannot convert float NaN/inf to integer")
             return VInt(z3.ToInt(trunc_real(z3.fpToReal(v.v))))
-        return VInt(z3.ToInt(trunc_real(v.v)))
+        # int(t) = truncation toward zero, characterised linearly by a fresh integer q
+        q = ex.st.fresh_int("trunc")
+        t = v.v
+        ex.st.assume(z3.If(t >= 0, z3.And(z3.ToReal(q) <= t, t < z3.ToReal(q) + 1), z3.And(z3.ToReal(q) >= t, t > z3.ToReal(q) - 1)))
+        return VInt(q)
     if isinstance(v, VStr):
         if is_conc(v.v):
             try:
